@@ -52,6 +52,12 @@ impl RuntimeState {
             .map(|interval| now + interval);
     }
 
+    /// Derive the remaining send quota from what is actually in flight, so that replayed
+    /// publishes and exchanges waiting for PUBCOMP keep occupying the broker's window.
+    pub(super) fn sync_send_quota(&mut self, inflight_publishes: u16) {
+        self.send_quota = self.max_send_quota.saturating_sub(inflight_publishes);
+    }
+
     pub(super) fn require_packet_size<E>(&self, len: usize) -> Result<(), Error<E>> {
         if self
             .maximum_packet_size
